@@ -35,6 +35,9 @@ ResOK(r, m) == /\ r.res.class = m.class
 Step(r, m) == IF StrictA THEN ResOK(r, m.r) /\ dict' = m.s ELSE dict' = ObsDict(r)
 
 RECURSIVE PopSeq(_)
+RECURSIVE FlatKV(_)
+FlatKV(s) == IF s = <<>> THEN <<>> ELSE <<Head(s).k, Head(s).v>> \o FlatKV(Tail(s))
+CanonKV(D) == FlatKV(Canonical(D))
 PopSeq(s) == IF s = <<>> THEN <<>> ELSE PopSeq(Tail(s)) \o <<Head(s).k, Head(s).v>>   \* reverse canonical, k then v
 
 Next ==
@@ -67,6 +70,16 @@ Next ==
             /\ (StrictA => r.res.class = "ok")
             /\ typ' = (IF StrictA THEN "S" \o ToString(r.ti) ELSE Root(r).ti)
             /\ dict' = (IF StrictA THEN dict ELSE ObsDict(r)) /\ UNCHANGED <<rid, limit>>
+       [] r.ev \in {"MIterProbe", "MPartialProbe", "MBatch", "MCopy", "MOtherDisposed"} ->
+            /\ dict' = (IF StrictA THEN dict ELSE ObsDict(r)) /\ UNCHANGED <<rid, typ, limit>>
+       [] r.ev = "MMutIter" ->      \* mutable iteration overwriting the value of the current key for the keys in mask
+            /\ (StrictA => r.res.class = "ok" /\ r.probe.iters[1].ids = CanonKV(dict))
+            /\ dict' = (IF StrictA THEN [i \in 1..Len(dict) |->
+                                          IF \E k \in 1..Len(r.probe.mask) : r.probe.mask[k] = dict[i].k
+                                          THEN [dict[i] EXCEPT !.v = r.probe.newids[CHOOSE k \in 1..Len(r.probe.mask) : r.probe.mask[k] = dict[i].k]]
+                                          ELSE dict[i]]
+                         ELSE ObsDict(r))
+            /\ UNCHANGED <<rid, typ, limit>>
        [] OTHER -> FALSE
 
 Spec == Init /\ [][Next]_tvars
@@ -107,6 +120,50 @@ CallLess(a, b) == a.owner < b.owner \/ (a.owner = b.owner /\ a.index < b.index)
 DetOrder == (l > 1 /\ Cur.ev = "Commit" /\ Cur.mode = "det") =>
   \A i \in 1..(Len(Cur.calls) - 1) : CallLess(Cur.calls[i], Cur.calls[i + 1])
 FailedCommitIsExternal == (l > 1 /\ Cur.ev = "Commit" /\ Cur.res.class # "ok") => Cur.res.cat = "external"
+
+\* C13
+RECURSIVE IsSubPairs(_, _)
+IsSubPairs(x, y) == IF x = <<>> THEN TRUE ELSE IF y = <<>> \/ Len(x) < 2 THEN FALSE
+                    ELSE IF x[1] = y[1] /\ x[2] = y[2] THEN IsSubPairs(SubSeq(x, 3, Len(x)), SubSeq(y, 3, Len(y)))
+                    ELSE IsSubPairs(x, SubSeq(y, 3, Len(y)))
+IterOK == (l > 1 /\ Cur.ev = "MIterProbe") =>
+  /\ \A i \in 1..Len(Cur.probe.iters) : Cur.probe.iters[i].class = "ok" /\ Cur.probe.iters[i].ids = CanonKV(dict)
+  /\ \A i \in 1..Len(Cur.probe.ranges) :
+       LET q == Cur.probe.ranges[i] IN
+       q.class = "ok" /\ q.ids = (IF q.s = 1 THEN CanonKeys(dict) ELSE CanonVals(dict))
+PartialOK == (l > 1 /\ Cur.ev = "MPartialProbe") =>
+  \A i \in 1..Len(Cur.probe.partial) :
+    LET q == Cur.probe.partial[i] IN q.class = "ok" /\ IsSubPairs(q.ids, CanonKV(dict)) /\ (q.s = q.e => q.ids = CanonKV(dict))
+\* C17
+OtherPairs(b) == LET a == b.abs IN {<<a[2 * i - 1].v, a[2 * i].v>> : i \in 1..(Len(a) \div 2)}
+OtherKeys(b) == LET a == b.abs IN [i \in 1..(Len(a) \div 2) |-> a[2 * i - 1].v]
+BatchOK == (l > 1 /\ Cur.ev = "MBatch") =>
+  /\ Cur.res.class = "ok" /\ Len(Cur.probe.other) = 1
+  /\ LET b == Cur.probe.other[1] IN
+     /\ OtherPairs(b) = Pairs(dict) /\ OtherKeys(b) = CanonKeys(dict) /\ b.n = Len(dict)
+     /\ ForestPairs(b.F[1]) = Pairs(dict)
+     /\ MapWellFormed(b.F[1]) /\ MapSizesAgree(b.F[1])
+     /\ b.rid # rid /\ b.ti = typ /\ b.F[1].seed = Forest(Cur).seed
+OtherWellFormed == (l > 1 /\ Len(Cur.probe.other) = 1) => MapWellFormed(Cur.probe.other[1].F[1])
+RECURSIVE NoExternal(_)
+NoExternal(E) == \A i \in 1..Len(E.el) : E.el[i].t # "x" /\ (E.el[i].t = "g" => NoExternal(E.el[i].els[1]))
+Copyable(F) == /\ F.k = "md" /\ NoExternal(F.els[1])
+               /\ LET es == MEntries(F) IN \A i \in 1..Len(es) : es[i][1].c = "s" /\ es[i][2].c = "s"
+CopyOK == (l > 1 /\ Cur.ev = "MCopy") =>
+  /\ Cur.probe.can = Copyable(Forest(Cur))
+  /\ (Cur.probe.can => /\ Cur.res.class = "ok" /\ Len(Cur.probe.other) = 1
+                        /\ LET b == Cur.probe.other[1] IN
+                           /\ OtherPairs(b) = Pairs(dict) /\ ForestPairs(b.F[1]) = Pairs(dict)
+                           /\ MapWellFormed(b.F[1]) /\ MapSizesAgree(b.F[1]) /\ b.rid # rid /\ b.ti = typ /\ ~b.F[1].inl)
+  /\ (~Cur.probe.can => Cur.res.class # "ok")
+SourceUnaffected == (l > 1 /\ Cur.ev \in {"MBatch", "MCopy", "MOtherDisposed"}) =>
+  /\ ObsPairs(Cur) = Pairs(dict) /\ ForestPairs(Forest(Cur)) = Pairs(dict)
+  /\ (Cur.ev = "MOtherDisposed" => Cur.st.stored = Cur.st.reach)
+\* C18
+Rejected(r) == r.res.class \notin {"ok"} /\ r.ev \in {"MSet", "MGet", "MHas", "MRemove"}
+NoTraceOfRejected == (l > 2 /\ Rejected(Cur) /\ Trace[l - 2].t = Cur.t) =>
+  /\ Root(Cur).fsum = Root(Trace[l - 2]).fsum
+  /\ Cur.st.deltas = Trace[l - 2].st.deltas /\ Cur.st.stored = Trace[l - 2].st.stored /\ Cur.st.calls = Trace[l - 2].st.calls
 
 TraceAccepted ==
   LET d == TLCGet("stats").diameter IN
